@@ -169,6 +169,98 @@ impl Variable {
 
 //@TYPES
 
+
+// ----- (b) opaque stand-ins for repo types the verified functions only pass around -------
+pub struct Type { pub id: Ghost<int> }                 // src/variable/type.rs (HashSet-based unions: outside Verus)
+pub struct Params { pub id: Ghost<int> }
+pub struct AnonymousFunction { pub id: Ghost<int> }
+pub struct ArrayIns { pub id: Ghost<int> }             // instruction::array::Array
+pub struct FieldAccess { pub id: Ghost<int> }
+pub struct FunctionDeclaration { pub id: Ghost<int> }
+pub struct MutIns { pub id: Ghost<int> }               // instruction::mut::Mut
+pub struct Reduce { pub id: Ghost<int> }
+pub struct Slicing { pub id: Ghost<int> }
+pub struct StructIns { pub id: Ghost<int> }            // instruction::struct::Struct
+pub struct TupleIns { pub id: Ghost<int> }             // instruction::tuple::Tuple
+pub struct TupleAccess { pub id: Ghost<int> }
+pub struct TypeFilter { pub id: Ghost<int> }
+pub struct LocalVariable { pub id: Ghost<int> }
+pub struct NativeFn { pub id: Ghost<int> }              // fn(&mut Interpreter) -> Result<Variable, ExecError> (fn pointers: outside Verus)
+pub struct Name { pub id: Ghost<int> }                 // Arc<str> used as an identifier
+
+pub uninterp spec fn spec_as_type(v: Variable) -> Type;
+pub uninterp spec fn spec_matches(a: Type, b: Type) -> bool;
+impl Variable {
+    /// Typed::as_type — not verified (match_any!, HashMap)
+    #[verifier::external_body]
+    pub fn as_type(&self) -> (r: Type) ensures r == spec_as_type(*self) { unimplemented!() }
+}
+impl Type {
+    /// Type::matches — not verified (see C10 in DESIGN)
+    #[verifier::external_body]
+    pub fn matches(&self, other: &Type) -> (r: bool) ensures r == spec_matches(*self, *other) { unimplemented!() }
+    #[verifier::external_body]
+    pub fn clone(&self) -> (r: Type) ensures r == *self { unimplemented!() }
+}
+impl Name {
+    #[verifier::external_body]
+    pub fn clone(&self) -> (r: Name) ensures r == *self { unimplemented!() }
+}
+
+// ----- abstract machine ---------------------------------------------------------------
+// The interpreter state (variable layers + everything reachable from them) is an abstract
+// value `st`.  Executing an instruction is an uninterpreted function of (instruction, state)
+// to (result, state'): this is the contract composite instructions are verified against —
+// a caller is checked against the callee's contract, never its body.
+pub struct Interpreter { pub st: Ghost<int> }
+
+pub uninterp spec fn eval_res(i: Instruction, s: int) -> ExecResult;
+pub uninterp spec fn eval_st(i: Instruction, s: int) -> int;
+pub uninterp spec fn st_layer(s: int) -> int;                       // create_layer
+pub uninterp spec fn st_insert(s: int, name: Name, v: Variable) -> int;
+
+impl Instruction {
+    /// `impl Exec for Instruction` is a match_any! dispatch to the per-kind `exec`; trusted.
+    #[verifier::external_body]
+    pub fn exec(&self, interpreter: &mut Interpreter) -> (r: ExecResult)
+        ensures r == eval_res(*self, old(interpreter).st@),
+                final(interpreter).st@ == eval_st(*self, old(interpreter).st@)
+    { unimplemented!() }
+}
+
+impl Interpreter {
+    #[verifier::external_body]
+    pub fn create_layer(&self) -> (r: Interpreter) ensures r.st@ == st_layer(self.st@) { unimplemented!() }
+    #[verifier::external_body]
+    pub fn insert(&mut self, name: Name, variable: Variable)
+        ensures final(self).st@ == st_insert(old(self).st@, name, variable) { unimplemented!() }
+}
+
+/// sequential left-to-right evaluation of a statement list, stopping at the first Err —
+/// the std contract of `iter().map(..).collect::<Result<_,_>>()` used by Interpreter::exec
+pub open spec fn seq_res(ins: Seq<InstructionWithStr>, s: int, k: int, acc: Seq<Variable>) -> Result<Seq<Variable>, ExecStop>
+    decreases ins.len() - k
+{
+    if k >= ins.len() || k < 0 { Ok(acc) }
+    else {
+        match eval_res(ins[k].instruction, s) {
+            Err(e) => Err(e),
+            Ok(v) => seq_res(ins, eval_st(ins[k].instruction, s), k + 1, acc.push(v)),
+        }
+    }
+}
+pub open spec fn seq_st(ins: Seq<InstructionWithStr>, s: int, k: int) -> int
+    decreases ins.len() - k
+{
+    if k >= ins.len() || k < 0 { s }
+    else {
+        match eval_res(ins[k].instruction, s) {
+            Err(e) => eval_st(ins[k].instruction, s),
+            Ok(v) => seq_st(ins, eval_st(ins[k].instruction, s), k + 1),
+        }
+    }
+}
+
 //@MACHINE
 
 } // verus!
